@@ -2,7 +2,14 @@ import PqVerif.Lemmas.Comb
 
 /-!
 Fermionic basis / index of `piquasso/fermionic/_utils.py` (models in `Model/Comb.lean`).
+
+* `fermiBasis_eq_spec`: iterating `next_second_quantized` from the vacuum enumerates, for each
+  particle number `k < cutoff` in increasing order, all `k`-subsets of `{0..d-1}` in
+  lexicographic order (`subsets d k`, characterised by `mem_subsets` and
+  `pairwise_lex_subsets`), written as occupation vectors.
+* `fermi_map_index_basis`: `get_fock_space_index` of the `j`-th basis vector is `j`.
 -/
+
 namespace Pq.Comb
 open List
 
@@ -20,13 +27,510 @@ def subsets (d k : Nat) : List (List Nat) := subsetsFrom d 0 k
 def fermiBasisSpec (d cutoff : Nat) : List (List Nat) :=
   (List.range cutoff).flatMap (fun k => (subsets d k).map (fun fq => toSecond fq d))
 
+/-! ### the scan of `next_first_quantized` -/
+
+/-- the test of the `next_first_quantized` scan at offset `i` -/
+def nfqCond (fq : List Nat) (d i : Nat) : Prop :=
+  fq.getD (fq.length - i - 1) 0 + i + 1 < d
+
+instance (fq : List Nat) (d i : Nat) : Decidable (nfqCond fq d i) := by
+  unfold nfqCond; infer_instance
+
+theorem nfqScan_succ (fq : List Nat) (d fuel i : Nat) :
+    nfqScan fq d (fuel + 1) i = if nfqCond fq d i then some i else nfqScan fq d fuel (i + 1) := rfl
+
+theorem nfqScan_eq_some (fq : List Nat) (d : Nat) : ∀ (fuel i0 i : Nat),
+    (∀ j, i0 ≤ j → j < i → ¬ nfqCond fq d j) → nfqCond fq d i → i0 ≤ i → i < i0 + fuel →
+    nfqScan fq d fuel i0 = some i
+  | 0, i0, i, _, _, h1, h2 => by omega
+  | fuel + 1, i0, i, hlt, hc, h1, h2 => by
+    rw [nfqScan_succ]
+    by_cases hi : i0 = i
+    · subst hi; rw [if_pos hc]
+    · rw [if_neg (hlt i0 (le_refl _) (by omega))]
+      exact nfqScan_eq_some fq d fuel (i0 + 1) i (fun j hj hji => hlt j (by omega) hji) hc
+        (by omega) (by omega)
+
+theorem nfqScan_eq_none (fq : List Nat) (d : Nat) : ∀ (fuel i0 : Nat),
+    (∀ j, i0 ≤ j → j < i0 + fuel → ¬ nfqCond fq d j) → nfqScan fq d fuel i0 = none
+  | 0, _, _ => rfl
+  | fuel + 1, i0, h => by
+    rw [nfqScan_succ, if_neg (h i0 (le_refl _) (by omega))]
+    exact nfqScan_eq_none fq d fuel (i0 + 1) (fun j hj hj' => h j (by omega) (by omega))
+
+theorem nfqScan_some_spec (fq : List Nat) (d : Nat) : ∀ (fuel i0 i : Nat),
+    nfqScan fq d fuel i0 = some i →
+    i0 ≤ i ∧ i < i0 + fuel ∧ nfqCond fq d i ∧ ∀ j, i0 ≤ j → j < i → ¬ nfqCond fq d j
+  | 0, _, _, h => by simp [nfqScan] at h
+  | fuel + 1, i0, i, h => by
+    rw [nfqScan_succ] at h
+    by_cases hc : nfqCond fq d i0
+    · rw [if_pos hc] at h
+      obtain rfl : i0 = i := by simpa using h
+      exact ⟨le_refl _, by omega, hc, fun j h1 h2 => by omega⟩
+    · rw [if_neg hc] at h
+      obtain ⟨h1, h2, h3, h4⟩ := nfqScan_some_spec fq d fuel (i0 + 1) i h
+      refine ⟨by omega, by omega, h3, fun j hj hji => ?_⟩
+      by_cases hj0 : j = i0
+      · subst hj0; exact hc
+      · exact h4 j (by omega) hji
+
+theorem nfqCond_cons (x : Nat) (a : List Nat) (d j : Nat) (hj : j < a.length) :
+    nfqCond (x :: a) d j ↔ nfqCond a d j := by
+  unfold nfqCond
+  have : (x :: a).length - j - 1 = (a.length - j - 1) + 1 := by simp; omega
+  rw [this, List.getD_cons_succ]
+
+theorem nextFirst_of_some {fq : List Nat} {d i : Nat} (h : nfqScan fq d fq.length 0 = some i) :
+    nextFirst fq d = fq.take (fq.length - i - 1) ++
+      (List.range (i + 1)).map (fun t => fq.getD (fq.length - i - 1) 0 + 1 + t) := by
+  simp only [nextFirst, h]
+
+theorem nextFirst_of_none {fq : List Nat} {d : Nat} (h : nfqScan fq d fq.length 0 = none) :
+    nextFirst fq d = List.range (fq.length + 1) := by
+  simp only [nextFirst, h]
+
+/-- `nextFirst` commutes with consing in front as long as the particle number is kept -/
+theorem nextFirst_cons (x : Nat) (a : List Nat) (d : Nat)
+    (h : (nextFirst a d).length = a.length) : nextFirst (x :: a) d = x :: nextFirst a d := by
+  cases hs : nfqScan a d a.length 0 with
+  | none => rw [nextFirst_of_none hs] at h; simp at h
+  | some i =>
+    obtain ⟨_, hi, hc, hlt⟩ := nfqScan_some_spec a d _ _ _ hs
+    have hi' : i < a.length := by omega
+    have hs' : nfqScan (x :: a) d (x :: a).length 0 = some i := by
+      apply nfqScan_eq_some
+      · intro j _ hji; rw [nfqCond_cons x a d j (by omega)]; exact hlt j (by omega) hji
+      · rw [nfqCond_cons x a d i hi']; exact hc
+      · omega
+      · simp; omega
+    rw [nextFirst_of_some hs, nextFirst_of_some hs']
+    have : (x :: a).length - i - 1 = (a.length - i - 1) + 1 := by simp; omega
+    rw [this, List.getD_cons_succ, List.take_succ_cons, List.cons_append]
+
+theorem getD_range' (s n i : Nat) (h : i < n) : (List.range' s n).getD i 0 = s + i := by
+  rw [List.getD_eq_getElem?_getD, List.getElem?_range' h]; simp
+
+/-- the last `j`-subset is followed by the first `(j+1)`-subset -/
+theorem nextFirst_last (d j : Nat) (hj : j ≤ d) :
+    nextFirst (List.range' (d - j) j) d = List.range (j + 1) := by
+  have : nfqScan (List.range' (d - j) j) d (List.range' (d - j) j).length 0 = none := by
+    apply nfqScan_eq_none
+    intro i _ hi
+    simp only [List.length_range', Nat.zero_add] at hi
+    unfold nfqCond
+    rw [List.length_range', getD_range' _ _ _ (by omega)]
+    omega
+  rw [nextFirst_of_none this, List.length_range']
+
+theorem nextFirst_cons_last (x d j : Nat) (hj : x + j + 1 < d) :
+    nextFirst (x :: List.range' (d - j) j) d = List.range' (x + 1) (j + 1) := by
+  have hl : (x :: List.range' (d - j) j).length = j + 1 := by simp
+  have : nfqScan (x :: List.range' (d - j) j) d (x :: List.range' (d - j) j).length 0 = some j := by
+    apply nfqScan_eq_some
+    · intro i _ hi
+      unfold nfqCond
+      rw [hl, show j + 1 - i - 1 = (j - i - 1) + 1 by omega, List.getD_cons_succ,
+        getD_range' _ _ _ (by omega)]
+      omega
+    · unfold nfqCond
+      rw [hl, show j + 1 - j - 1 = 0 by omega]
+      simpa using hj
+    · omega
+    · rw [hl]; omega
+  rw [nextFirst_of_some this, hl, show j + 1 - j - 1 = 0 by omega]
+  simp [List.range'_eq_map_range]
+
+/-! ### the specification list `subsetsFrom` -/
+
+theorem subsetsFrom_zero (fuel lo : Nat) : subsetsFrom fuel lo 0 = [[]] := by
+  cases fuel <;> rfl
+
+theorem subsetsFrom_succ (fuel lo k : Nat) : subsetsFrom (fuel + 1) lo (k + 1) =
+    (subsetsFrom fuel (lo + 1) k).map (lo :: ·) ++ subsetsFrom fuel (lo + 1) (k + 1) := rfl
+
+/-- characterisation of the members: increasing `k`-lists with entries in `[lo, lo + fuel)` -/
+theorem mem_subsetsFrom : ∀ (fuel lo k : Nat) (fq : List Nat),
+    fq ∈ subsetsFrom fuel lo k ↔
+      fq.length = k ∧ fq.Pairwise (· < ·) ∧ ∀ x ∈ fq, lo ≤ x ∧ x < lo + fuel
+  | fuel, lo, 0, fq => by
+    rw [subsetsFrom_zero, List.mem_singleton]
+    constructor
+    · rintro rfl; simp
+    · rintro ⟨h, _⟩; exact List.length_eq_zero_iff.1 h
+  | 0, lo, k + 1, fq => by
+    simp only [subsetsFrom, List.not_mem_nil, false_iff]
+    rintro ⟨hl, _, hb⟩
+    match fq, hl with
+    | x :: r, _ => have := hb x (by simp); omega
+  | fuel + 1, lo, k + 1, fq => by
+    rw [subsetsFrom_succ, List.mem_append, List.mem_map]
+    constructor
+    · rintro (⟨r, hr, rfl⟩ | h)
+      · obtain ⟨h1, h2, h3⟩ := (mem_subsetsFrom fuel (lo + 1) k r).1 hr
+        refine ⟨by simp [h1], List.pairwise_cons.2 ⟨fun y hy => ?_, h2⟩, ?_⟩
+        · have := h3 y hy; omega
+        · intro y hy
+          rcases List.mem_cons.1 hy with rfl | hy
+          · omega
+          · have := h3 y hy; omega
+      · obtain ⟨h1, h2, h3⟩ := (mem_subsetsFrom fuel (lo + 1) (k + 1) fq).1 h
+        exact ⟨h1, h2, fun y hy => by have := h3 y hy; omega⟩
+    · rintro ⟨hl, hp, hb⟩
+      match fq, hl with
+      | x :: r, hl =>
+        have hxr := (List.pairwise_cons.1 hp).1
+        have hr := (List.pairwise_cons.1 hp).2
+        have hx := hb x (by simp)
+        by_cases hxlo : x = lo
+        · subst hxlo
+          left
+          refine ⟨r, (mem_subsetsFrom fuel (x + 1) k r).2 ⟨by simpa using hl, hr, fun y hy => ?_⟩, rfl⟩
+          have := hxr y hy
+          have := hb y (by simp [hy])
+          omega
+        · right
+          refine (mem_subsetsFrom fuel (lo + 1) (k + 1) (x :: r)).2 ⟨hl, hp, fun y hy => ?_⟩
+          have := hb y hy
+          rcases List.mem_cons.1 hy with rfl | hy'
+          · omega
+          · have := hxr y hy'; omega
+
+theorem mem_subsets (d k : Nat) (fq : List Nat) :
+    fq ∈ subsets d k ↔ fq.length = k ∧ fq.Pairwise (· < ·) ∧ ∀ x ∈ fq, x < d := by
+  unfold subsets
+  rw [mem_subsetsFrom]
+  simp
+
+theorem subsetsFrom_eq_nil : ∀ (fuel lo k : Nat), fuel < k → subsetsFrom fuel lo k = []
+  | _, _, 0, h => by omega
+  | 0, _, _ + 1, _ => rfl
+  | fuel + 1, lo, k + 1, h => by
+    rw [subsetsFrom_succ, subsetsFrom_eq_nil fuel (lo + 1) k (by omega),
+      subsetsFrom_eq_nil fuel (lo + 1) (k + 1) (by omega)]
+    rfl
+
+theorem head?_subsetsFrom : ∀ (fuel lo k : Nat), k ≤ fuel →
+    (subsetsFrom fuel lo k).head? = some (List.range' lo k)
+  | fuel, lo, 0, _ => by rw [subsetsFrom_zero]; rfl
+  | 0, _, _ + 1, h => by omega
+  | fuel + 1, lo, k + 1, h => by
+    rw [subsetsFrom_succ, List.head?_append, List.head?_map,
+      head?_subsetsFrom fuel (lo + 1) k (by omega)]
+    rfl
+
+theorem getLast?_subsetsFrom : ∀ (fuel lo k : Nat), k ≤ fuel →
+    (subsetsFrom fuel lo k).getLast? = some (List.range' (lo + fuel - k) k)
+  | fuel, lo, 0, _ => by rw [subsetsFrom_zero]; rfl
+  | 0, _, _ + 1, h => by omega
+  | fuel + 1, lo, k + 1, h => by
+    rw [subsetsFrom_succ, List.getLast?_append, List.getLast?_map,
+      getLast?_subsetsFrom fuel (lo + 1) k (by omega)]
+    by_cases hk : k + 1 ≤ fuel
+    · rw [getLast?_subsetsFrom fuel (lo + 1) (k + 1) hk]
+      simp only [Option.some_or]
+      congr 2
+      omega
+    · rw [subsetsFrom_eq_nil fuel (lo + 1) (k + 1) (by omega)]
+      have hk' : k = fuel := by omega
+      subst hk'
+      simp only [List.getLast?_nil, Option.none_or, Option.map_some]
+      rw [show lo + 1 + k - k = lo + 1 by omega, show lo + (k + 1) - (k + 1) = lo by omega]
+      rfl
+
+/-- inside one sector, each entry is the `nextFirst` of its predecessor (same particle number) -/
+theorem isChain_subsetsFrom : ∀ (fuel lo k : Nat),
+    List.IsChain (fun a b => b = nextFirst a (lo + fuel) ∧ b.length = a.length)
+      (subsetsFrom fuel lo k)
+  | fuel, lo, 0 => by rw [subsetsFrom_zero]; exact List.isChain_singleton _
+  | 0, _, _ + 1 => List.isChain_nil
+  | fuel + 1, lo, k + 1 => by
+    have ih1 := isChain_subsetsFrom fuel (lo + 1) k
+    have ih2 := isChain_subsetsFrom fuel (lo + 1) (k + 1)
+    have hd : lo + 1 + fuel = lo + (fuel + 1) := by omega
+    rw [hd] at ih1 ih2
+    rw [subsetsFrom_succ]
+    refine List.IsChain.append ?_ ih2 ?_
+    · refine List.isChain_map_of_isChain _ ?_ ih1
+      rintro a b ⟨h1, h2⟩
+      refine ⟨?_, by simp [h2]⟩
+      rw [nextFirst_cons lo a _ (h1 ▸ h2), h1]
+    · intro x hx y hy
+      by_cases hk : k + 1 ≤ fuel
+      · rw [List.getLast?_map, getLast?_subsetsFrom fuel (lo + 1) k (by omega)] at hx
+        rw [head?_subsetsFrom fuel (lo + 1) (k + 1) hk] at hy
+        obtain rfl : lo :: List.range' (lo + 1 + fuel - k) k = x := by simpa using hx
+        obtain rfl : List.range' (lo + 1) (k + 1) = y := by simpa using hy
+        rw [hd, nextFirst_cons_last lo _ k (by omega)]
+        simp
+      · rw [subsetsFrom_eq_nil fuel (lo + 1) (k + 1) (by omega)] at hy
+        simp at hy
+
+/-! ### first ↔ second quantisation -/
+
+theorem length_toSecond (fq : List Nat) (d : Nat) : (toSecond fq d).length = d := by
+  simp [toSecond]
+
+theorem toFirst_toSecond (fq : List Nat) (d : Nat) (hp : fq.Pairwise (· < ·))
+    (hb : ∀ x ∈ fq, x < d) : toFirst (toSecond fq d) = fq := by
+  unfold toFirst
+  rw [length_toSecond]
+  have hf : (List.range d).filter (fun i => (toSecond fq d).getD i 0 == 1) =
+      (List.range d).filter (fun i => fq.contains i) := by
+    apply List.filter_congr
+    intro i hi
+    have hi' : i < d := List.mem_range.1 hi
+    simp only [toSecond, List.getD_eq_getElem?_getD, List.getElem?_map, List.getElem?_range hi',
+      Option.map_some, Option.getD_some]
+    by_cases h : i ∈ fq <;> simp [h]
+  rw [hf]
+  refine List.Pairwise.eq_of_mem_iff (r := (· < ·)) (List.pairwise_lt_range.filter _) hp ?_
+  intro a
+  simp only [List.mem_filter, List.mem_range, List.contains_iff_mem]
+  exact ⟨fun h => h.2, fun h => ⟨hb a h, h⟩⟩
+
+theorem nextSecond_toSecond (fq : List Nat) (d : Nat) (hp : fq.Pairwise (· < ·))
+    (hb : ∀ x ∈ fq, x < d) : nextSecond (toSecond fq d) = toSecond (nextFirst fq d) d := by
+  unfold nextSecond
+  rw [length_toSecond, toFirst_toSecond fq d hp hb]
+
+theorem toSecond_nil (d : Nat) : toSecond [] d = List.replicate d 0 := by
+  simp [toSecond]
+
+/-! ### the generator is determined by the chain property -/
+
+theorem fermiBasisGen_eq_of_isChain : ∀ (L : List (List Nat)) (occ : List Nat),
+    (∀ x ∈ L.head?, x = occ) → List.IsChain (fun a b => b = nextSecond a) L →
+    fermiBasisGen L.length occ = L
+  | [], _, _, _ => rfl
+  | a :: L, occ, hh, hc => by
+    obtain rfl : a = occ := hh a (by simp)
+    rw [List.length_cons, fermiBasisGen]
+    congr 1
+    rw [List.isChain_cons] at hc
+    exact fermiBasisGen_eq_of_isChain L _ (fun x hx => hc.1 x hx) hc.2
+
+/-! ### all sectors below the cutoff -/
+
+/-- first-quantised form of the specification basis -/
+def allSubsets (d cutoff : Nat) : List (List Nat) := (List.range cutoff).flatMap (subsets d)
+
+theorem allSubsets_succ (d c : Nat) : allSubsets d (c + 1) = allSubsets d c ++ subsets d c := by
+  simp [allSubsets, List.range_succ, List.flatMap_append]
+
+theorem fermiBasisSpec_eq_map (d c : Nat) :
+    fermiBasisSpec d c = (allSubsets d c).map (fun fq => toSecond fq d) := by
+  unfold fermiBasisSpec allSubsets
+  rw [List.map_flatMap]
+
+theorem mem_allSubsets {d c : Nat} {fq : List Nat} (h : fq ∈ allSubsets d c) :
+    fq.Pairwise (· < ·) ∧ ∀ x ∈ fq, x < d := by
+  unfold allSubsets at h
+  obtain ⟨k, _, hk⟩ := List.mem_flatMap.1 h
+  exact ((mem_subsets d k fq).1 hk).2
+
+theorem getLast?_allSubsets (d c : Nat) (hc : c ≤ d) :
+    (allSubsets d (c + 1)).getLast? = some (List.range' (d - c) c) := by
+  rw [allSubsets_succ, List.getLast?_append]
+  unfold subsets
+  rw [getLast?_subsetsFrom d 0 c hc]
+  simp
+
+theorem isChain_allSubsets (d : Nat) : ∀ c, c ≤ d + 1 →
+    List.IsChain (fun a b => b = nextFirst a d) (allSubsets d c)
+  | 0, _ => by simp [allSubsets]
+  | c + 1, h => by
+    rw [allSubsets_succ]
+    refine List.IsChain.append (isChain_allSubsets d c (by omega)) ?_ ?_
+    · have := isChain_subsetsFrom d 0 c
+      rw [Nat.zero_add] at this
+      exact this.imp (fun a b h => h.1)
+    · intro x hx y hy
+      match c, h, hx with
+      | 0, _, hx => simp [allSubsets] at hx
+      | c + 1, h, hx =>
+        rw [getLast?_allSubsets d c (by omega)] at hx
+        unfold subsets at hy
+        rw [head?_subsetsFrom d 0 (c + 1) (by omega)] at hy
+        obtain rfl : List.range' (d - c) c = x := by simpa using hx
+        obtain rfl : List.range' 0 (c + 1) = y := by simpa using hy
+        rw [nextFirst_last d c (by omega), List.range_eq_range']
+
+/-! ### the index is the lexicographic rank -/
+
+/-- the subtracted sum of `get_fock_subspace_index_first_quantized`, recursively;
+`m` is the number of particles still to be placed -/
+def coRankI (d : Nat) : Int → List Nat → Int
+  | _, [] => 0
+  | m, x :: r => (combInt ((d : Int) - (x : Int) - 1) m : Int) + coRankI d (m - 1) r
+
+theorem foldl_coRankI (d : Nat) : ∀ (fq : List Nat) (m init : Int),
+    (List.range fq.length).foldl
+      (fun (s : Int) i => s - (combInt ((d : Int) - (fq.getD i 0 : Int) - 1) (m - i) : Int)) init
+      = init - coRankI d m fq
+  | [], m, init => by simp [coRankI]
+  | x :: r, m, init => by
+    rw [List.length_cons, List.range_succ_eq_map, List.foldl_cons, List.foldl_map]
+    have hf : (fun (s : Int) (i : Nat) =>
+        s - (combInt ((d : Int) - ((x :: r).getD (Nat.succ i) 0 : Int) - 1) (m - (Nat.succ i : Nat)) : Int))
+        = (fun (s : Int) (i : Nat) =>
+        s - (combInt ((d : Int) - (r.getD i 0 : Int) - 1) (m - 1 - i) : Int)) := by
+      funext s i
+      rw [List.getD_cons_succ]
+      congr 3
+      push_cast
+      ring
+    rw [hf, foldl_coRankI d r (m - 1)]
+    simp only [List.getD_cons_zero, coRankI, Nat.cast_zero, sub_zero]
+    ring
+
+theorem fermiSubIndexFQ_eq (fq : List Nat) (d : Nat) :
+    fermiSubIndexFQ fq d = (d.choose fq.length : Int) - 1 - coRankI d fq.length fq := by
+  unfold fermiSubIndexFQ
+  by_cases h : fq.length = 0
+  · have : fq = [] := List.length_eq_zero_iff.1 h
+    subst this
+    simp [coRankI]
+  · simp only [h, if_false]
+    rw [foldl_coRankI, comb_eq_choose]
+
+/-- ranking each sector: the `j`-th subset has sub-index `j` -/
+theorem map_rank_subsetsFrom : ∀ (fuel lo k : Nat),
+    (subsetsFrom fuel lo k).map
+        (fun fq => (fuel.choose k : Int) - 1 - coRankI (lo + fuel) (k : Int) fq)
+      = (List.range (fuel.choose k)).map Int.ofNat
+  | fuel, lo, 0 => by rw [subsetsFrom_zero]; simp [coRankI]
+  | 0, lo, k + 1 => by simp [subsetsFrom]
+  | fuel + 1, lo, k + 1 => by
+    have ih1 := map_rank_subsetsFrom fuel (lo + 1) k
+    have ih2 := map_rank_subsetsFrom fuel (lo + 1) (k + 1)
+    have hd : lo + 1 + fuel = lo + (fuel + 1) := by omega
+    rw [hd] at ih1 ih2
+    have hP : ((fuel + 1).choose (k + 1) : Int) = fuel.choose k + fuel.choose (k + 1) := by
+      rw [Nat.choose_succ_succ]; push_cast; rfl
+    have h1 : (subsetsFrom fuel (lo + 1) k).map
+        (fun r => ((fuel + 1).choose (k + 1) : Int) - 1
+          - coRankI (lo + (fuel + 1)) ((k + 1 : Nat) : Int) (lo :: r))
+        = (List.range (fuel.choose k)).map Int.ofNat := by
+      rw [← ih1]
+      apply List.map_congr_left
+      intro r _
+      have e1 : ((lo + (fuel + 1) : Nat) : Int) - (lo : Int) - 1 = (fuel : Int) := by
+        push_cast; ring
+      have e2 : ((k + 1 : Nat) : Int) - 1 = (k : Int) := by push_cast; ring
+      simp only [coRankI]
+      rw [e1, e2, combInt_natCast, hP]
+      ring
+    have h2 : (subsetsFrom fuel (lo + 1) (k + 1)).map
+        (fun r => ((fuel + 1).choose (k + 1) : Int) - 1
+          - coRankI (lo + (fuel + 1)) ((k + 1 : Nat) : Int) r)
+        = (List.range (fuel.choose (k + 1))).map (fun j => Int.ofNat (fuel.choose k + j)) := by
+      have : (fun j => Int.ofNat (fuel.choose k + j)) =
+          (fun z : Int => (fuel.choose k : Int) + z) ∘ Int.ofNat := by
+        funext j; simp
+      rw [this, ← List.map_map, ← ih2, List.map_map]
+      apply List.map_congr_left
+      intro r _
+      simp only [Function.comp]
+      rw [hP]
+      ring
+    rw [subsetsFrom_succ, List.map_append, List.map_map]
+    simp only [Function.comp_def]
+    rw [h1, h2, Nat.choose_succ_succ, List.range_add, List.map_append, List.map_map]
+    rfl
+
+theorem length_subsets (d k : Nat) : (subsets d k).length = d.choose k := by
+  have := congrArg List.length (map_rank_subsetsFrom d 0 k)
+  simpa [subsets] using this
+
+theorem fermiCutoffDim_zero (d : Nat) : fermiCutoffDim d 0 = 0 := rfl
+
+theorem fermiCutoffDim_succ (d c : Nat) :
+    fermiCutoffDim d (c + 1) = fermiCutoffDim d c + d.choose c := by
+  unfold fermiCutoffDim
+  rw [List.range_succ, List.map_append, List.sum_append]
+  simp [fermiSubDim, comb_eq_choose]
+
+theorem length_allSubsets (d : Nat) : ∀ c, (allSubsets d c).length = fermiCutoffDim d c
+  | 0 => rfl
+  | c + 1 => by
+    rw [allSubsets_succ, List.length_append, length_allSubsets d c, length_subsets,
+      fermiCutoffDim_succ]
+
+theorem head?_allSubsets (d : Nat) : ∀ c, (allSubsets d (c + 1)).head? = some []
+  | 0 => by simp [allSubsets, subsets, subsetsFrom_zero]
+  | c + 1 => by rw [allSubsets_succ, List.head?_append, head?_allSubsets d c]; rfl
+
 theorem fermiBasis_eq_spec (d cutoff : Nat) (h : cutoff ≤ d + 1) :
     fermiBasis d cutoff = fermiBasisSpec d cutoff := by
-  sorry
+  have hlen : (fermiBasisSpec d cutoff).length = fermiCutoffDim d cutoff := by
+    rw [fermiBasisSpec_eq_map, List.length_map, length_allSubsets]
+  unfold fermiBasis
+  rw [← hlen]
+  apply fermiBasisGen_eq_of_isChain
+  · rw [fermiBasisSpec_eq_map, List.head?_map]
+    cases cutoff with
+    | zero => simp [allSubsets]
+    | succ c => rw [head?_allSubsets]; simp [toSecond_nil]
+  · rw [fermiBasisSpec_eq_map, List.isChain_map]
+    refine (isChain_allSubsets d cutoff h).imp_of_mem_imp ?_
+    intro a b ha _ hab
+    obtain ⟨hp, hb⟩ := mem_allSubsets ha
+    rw [nextSecond_toSecond a d hp hb, hab]
+
+theorem fermiIndex_toSecond {d k : Nat} {fq : List Nat} (hfq : fq ∈ subsets d k) :
+    fermiIndex (toSecond fq d) =
+      (fermiCutoffDim d k : Int) + ((d.choose k : Int) - 1 - coRankI d (k : Int) fq) := by
+  obtain ⟨hl, hp, hb⟩ := (mem_subsets d k fq).1 hfq
+  unfold fermiIndex fermiIndexFQ
+  rw [length_toSecond, toFirst_toSecond fq d hp hb, fermiSubIndexFQ_eq, hl]
+
+theorem map_fermiIndex_sector (d k : Nat) :
+    ((subsets d k).map (fun fq => toSecond fq d)).map fermiIndex =
+      (List.range' (fermiCutoffDim d k) (d.choose k)).map Int.ofNat := by
+  have hr := map_rank_subsetsFrom d 0 k
+  rw [Nat.zero_add] at hr
+  have hR : (List.range' (fermiCutoffDim d k) (d.choose k)).map Int.ofNat =
+      ((List.range (d.choose k)).map Int.ofNat).map
+        (fun z : Int => (fermiCutoffDim d k : Int) + z) := by
+    rw [List.range'_eq_map_range, List.map_map, List.map_map]
+    apply List.map_congr_left
+    intro j _
+    simp
+  rw [hR, ← hr, List.map_map, List.map_map]
+  apply List.map_congr_left
+  intro fq hfq
+  simp only [Function.comp]
+  exact fermiIndex_toSecond hfq
 
 /-- the index function inverts the enumeration -/
 theorem fermi_map_index_basis (d cutoff : Nat) (h : cutoff ≤ d + 1) :
     (fermiBasis d cutoff).map fermiIndex = (List.range (fermiCutoffDim d cutoff)).map Int.ofNat := by
-  sorry
+  rw [fermiBasis_eq_spec d cutoff h, fermiBasisSpec, List.map_flatMap]
+  rw [List.flatMap_congr (fun k _ => map_fermiIndex_sector d k)]
+  rw [← List.map_flatMap,
+    flatMap_range' (fermiCutoffDim d) (fun k => d.choose k) (fermiCutoffDim_zero d)
+      (fermiCutoffDim_succ d), List.range_eq_range']
+
+/-- the specification list is strictly sorted for the lexicographic order -/
+theorem pairwise_lex_subsetsFrom : ∀ (fuel lo k : Nat),
+    (subsetsFrom fuel lo k).Pairwise (List.Lex (· < ·))
+  | fuel, lo, 0 => by rw [subsetsFrom_zero]; exact List.pairwise_singleton _ _
+  | 0, _, _ + 1 => List.Pairwise.nil
+  | fuel + 1, lo, k + 1 => by
+    rw [subsetsFrom_succ, List.pairwise_append]
+    refine ⟨?_, pairwise_lex_subsetsFrom fuel (lo + 1) (k + 1), ?_⟩
+    · rw [List.pairwise_map]
+      exact (pairwise_lex_subsetsFrom fuel (lo + 1) k).imp (fun h => List.Lex.cons h)
+    · intro a ha b hb
+      obtain ⟨r, _, rfl⟩ := List.mem_map.1 ha
+      obtain ⟨hl, _, hbd⟩ := (mem_subsetsFrom fuel (lo + 1) (k + 1) b).1 hb
+      match b, hl with
+      | y :: t, _ =>
+        have := hbd y (by simp)
+        exact List.Lex.rel (by omega)
+
+theorem pairwise_lex_subsets (d k : Nat) : (subsets d k).Pairwise (List.Lex (· < ·)) :=
+  pairwise_lex_subsetsFrom d 0 k
 
 end Pq.Comb
